@@ -577,6 +577,21 @@ func (e *Env) evalCall(x *Expr) (SV, error) {
 			return SV{T: c.Ite(c.Cmp("<=", a[0].T, a[1].T), a[0].T, a[1].T)}, nil
 		}
 		return SV{T: c.Ite(c.Cmp(">=", a[0].T, a[1].T), a[0].T, a[1].T)}, nil
+	case "bytes2str", "str2bytes":
+		// the Go conversions string(b) / []byte(s): the same uninterpreted functions the engine uses for the code's conversions
+		a, err := e.evalArgs(x.Args)
+		if err != nil {
+			return SV{}, err
+		}
+		bs := v.tm.SortOf(types.NewSlice(types.Typ[types.Uint8]))
+		from, to := bs, v.tm.SStr
+		if x.Name == "str2bytes" {
+			from, to = v.tm.SStr, bs
+		}
+		if len(a) != 1 || a[0].T.Sort != from {
+			return SV{}, serr("%s: one argument of sort %s", x.Name, from.Name)
+		}
+		return SV{T: c.UF("conv_"+sanitize(from.Name)+"_to_"+sanitize(to.Name), to, a[0].T)}, nil
 	case "len":
 		a, err := e.evalArgs(x.Args)
 		if err != nil {
